@@ -426,6 +426,11 @@ func (c *Cache[K, V]) applyWriteBatch(s *shard[K, V], batch []writeCommand[K, V]
 		cmd := &batch[i]
 		switch cmd.op {
 		case writeSet:
+			if c.finalized.Load() {
+				// published during shutdown and drained by a call that began before Close:
+				// the shards are being (or have been) cleared, do not repopulate them.
+				break
+			}
 			if cmd.expireTime > 0 && now == 0 {
 				now = c.nowNano()
 			}
